@@ -20,7 +20,7 @@ import (
 
 func init() {
 	Register(&Prop{
-		ID: "C09", Engine: "A", Quick: 8000, Thorough: 300000, Level: "exploration",
+		ID: "C09", Engine: "A", Quick: 8000, Thorough: 100000, Level: "exploration",
 		Rule: "each run = one streamed INSERT: 1..4 input columns of drawn types (fixed-width ones sent by reference, FixedString, Bool, String, LowCardinality, arrays, nullables, maps, tuples), initial rows zero or not, and a drawn callback history over {append without reset, reset+append, overwrite in place, return nil unchanged, io.EOF after reset, io.EOF with leftover rows, wrapped io.EOF, other error}; the reference server parses what arrives, sends Progress while the client streams; compression mode, revisions, back-pressure window and the goroutine/delivery schedule are drawn; no transport faults; oracle = the blocks the server received equal the model's snapshots taken when each round began, in order, followed by exactly one terminator (none required after a callback error, which must fail the query); distinct = schedule digests; non-trivial = at least two blocks or a callback error",
 		Run:  runC09,
 	})
